@@ -91,7 +91,8 @@ fn slot(i: usize, p: &str) -> Slot {
         _ => d(vec![load(&t(0), r8("RAX"), e8("RAX"))]),
     }
 }
-const QUICK_SLOTS: [usize; 14] = [0, 1, 2, 4, 5, 6, 7, 9, 10, 15, 17, 19, 21, 27];
+// (slot 15, the spill, is thorough-only: programs with it are out of scope and skipped anyway)
+const QUICK_SLOTS: [usize; 13] = [0, 1, 2, 4, 5, 6, 7, 9, 10, 17, 19, 21, 27];
 const THOROUGH_4SLOT: [usize; 13] = [0, 1, 2, 4, 5, 6, 9, 10, 12, 14, 17, 19, 20];
 
 fn externs() -> Vec<ExternSymbol> {
